@@ -321,6 +321,55 @@ fn cancel_smol(big: usize) -> Vec<String> {
     })
 }
 
+/// Connections created at the same instant by several OS threads (a barrier releases them together): the
+/// identifiers must still be pairwise distinct. Real socket pairs, wrapped as zlink connections of the runtime.
+fn concurrent_ids(tokio_rt_kind: bool, threads: usize, per: usize, rounds: usize) -> (usize, usize) {
+    use std::sync::{Arc, Barrier, Mutex};
+    let rt = if tokio_rt_kind { Some(tokio::runtime::Builder::new_current_thread().enable_all().build().unwrap()) } else { None };
+    let all: Arc<Mutex<Vec<usize>>> = Arc::new(Mutex::new(vec![]));
+    for _ in 0..rounds {
+        let barrier = Arc::new(Barrier::new(threads));
+        let mut hs = vec![];
+        for _ in 0..threads {
+            let barrier = barrier.clone();
+            let all = all.clone();
+            let handle = rt.as_ref().map(|r| r.handle().clone());
+            hs.push(std::thread::spawn(move || {
+                let _guard = handle.as_ref().map(|h| h.enter());
+                let pairs: Vec<_> = (0..per).map(|_| std::os::unix::net::UnixStream::pair().unwrap()).collect();
+                barrier.wait();
+                let mut ids = vec![];
+                let mut keep_t = vec![];
+                let mut keep_s = vec![];
+                for (a, _b) in pairs.iter() {
+                    let a = a.try_clone().unwrap();
+                    if tokio_rt_kind {
+                        a.set_nonblocking(true).unwrap();
+                        let c = Connection::new(zlink_tokio::unix::Stream::from(tokio::net::UnixStream::from_std(a).unwrap()));
+                        ids.push(c.id());
+                        keep_t.push(c);
+                    } else {
+                        let c = Connection::new(zlink_smol::unix::Stream::from(async_io::Async::new(a).unwrap()));
+                        ids.push(c.id());
+                        keep_s.push(c);
+                    }
+                }
+                all.lock().unwrap().extend(ids);
+                drop(keep_t);
+                drop(keep_s);
+            }));
+        }
+        for h in hs {
+            h.join().unwrap();
+        }
+    }
+    let v = all.lock().unwrap().clone();
+    let mut s = v.clone();
+    s.sort();
+    s.dedup();
+    (v.len(), s.len())
+}
+
 fn sizes(rng: &mut Rng, n: usize, big: bool) -> Vec<usize> {
     (0..n)
         .map(|_| match rng.below(if big { 8 } else { 5 }) {
@@ -362,6 +411,13 @@ pub fn main(o: &Opts) {
                     vec![format!("unix listen {rt} {} n={k} => ids={} served={served}", if from_fd { "fd" } else { "bound" }, if distinct { "distinct" } else { "dup" })]
                 });
             }
+        }
+        {
+            let rounds = if o.thorough() { 400 } else { 60 };
+            em.case(|| {
+                let (n, d) = concurrent_ids(rt == "tokio", 8, 16, rounds);
+                vec![format!("unix ids {rt} threads=8 per=16 rounds={rounds} n={n} => ids={}", if n == d { "distinct".to_string() } else { format!("dup:{}", n - d) })]
+            });
         }
         for big in [1usize << 20, 400_000] {
             em.case(|| {
